@@ -245,7 +245,17 @@ func (r *grammarOptimizer) optimizeRule(expr Expression) Expression {
 				delete(r.ruleUsesRules, r.rule)
 			}
 			// TODO: Check if reference exists, otherwise raise an error, which reference is missing!
-			return cloneExpr(r.rules[ruleRef.Name.Val].Expr)
+			inlined := cloneExpr(r.rules[ruleRef.Name.Val].Expr)
+			if hasScopeLabels(inlined) {
+				// The labels of the referenced rule live in that rule's own scope.
+				// An unnamed labeled expression gives the inlined copy a scope of
+				// its own (in the builder and in the parser) without changing what
+				// it matches or returns; otherwise its labels would become
+				// parameters of the code blocks of the enclosing scope and clash
+				// with equally named labels there or in a second inlined copy.
+				inlined = &LabeledExpr{Expr: inlined, p: ruleRef.p}
+			}
+			return inlined
 		}
 	}
 
@@ -266,6 +276,27 @@ func (r *grammarOptimizer) optimizeRule(expr Expression) Expression {
 	}
 
 	return expr
+}
+
+// hasScopeLabels reports whether expr introduces labels in the scope it is
+// placed in, i.e. contains a labeled expression that is not nested in an
+// expression that opens a scope of its own.
+func hasScopeLabels(expr Expression) bool {
+	switch expr := expr.(type) {
+	case *LabeledExpr:
+		return expr.Label != nil
+	case *ActionExpr:
+		return hasScopeLabels(expr.Expr)
+	case *RecoveryExpr:
+		return hasScopeLabels(expr.Expr) || hasScopeLabels(expr.RecoverExpr)
+	case *SeqExpr:
+		for _, e := range expr.Exprs {
+			if hasScopeLabels(e) {
+				return true
+			}
+		}
+	}
+	return false
 }
 
 // cloneExpr takes an Expression and deep clones it (including all children)
